@@ -21,7 +21,7 @@ PART = {
          "6 codec tags; page_size 1 B .. 1 MiB; 0..3 row groups; every column's rows split into 1..4 write_batch calls "
          "(also empty ones, NULL def_levels); each file written twice, read back through fread, mmap and buffer. "
          "distinct = distinct histories. twice: in a fresh process, per codec one INT64 column of 16 000 .. 60 000 values (ramp / low-entropy / random; pages above 64 KiB) written twice in a row, first with every codec in its virgin state, then after a different table; the two files must be byte-identical. c05sink: 6 (thorough 40) histories on fopencookie sinks with one transiently failing or "
-         "permanently failing operation in 3 buffering modes, the caller carrying on: OK from close => the sink holds exactly the fault-free file",
+         "permanently failing operation in 3 buffering modes, the caller carrying on: OK from close => the sink holds exactly the fault-free file; every line is also run through the writer-on-a-failing-stream model (Impl.WriterSink): statuses, bytes sunk and every sink operation must agree",
     assumptions=["fwrite/fread are identity on bytes", "GZIP (level 6) and ZSTD (level 3) payloads by library contract"],
     trusted_base=[],
     text=_TEXT_WR,
